@@ -14,7 +14,8 @@ PROPS = {
                   "thorough": {"batches": 32, "runs": 20000, "budget_s": 900, "floor_runs": 300000}},
         "rule": "one run = one seeded history of BiMap operations (construct / insert_left / insert_right / "
                 "__setitem__ / delete_left / delete_right / __delitem__ / lookups) over a 7-symbol alphabet incl. "
-                "0, '' and (), compared step by step with a two-dict reference model; a run is non-trivial when it "
+                "0, '' and () (one run in ten: a 100-symbol alphabet and 100-440 steps, maps of 50+ pairs; one in five: two maps "
+                "built from one dict or one from the other), compared step by step with a two-dict reference model; a run is non-trivial when it "
                 "has >= 2 state-changing steps; distinct = distinct event-log digests",
         "real": ["hugr.utils.BiMap"], "stub": [],
         "technique": "seeded operation histories against a sequential reference model (two dicts), state compared after every step; choice-trace minimisation; fresh-interpreter replay",
@@ -32,7 +33,7 @@ PROPS = {
                             "recursive_call", "poly_call", "row_var_arity_change", "poly_misc_params", "state_order", "if_else",
                             "tail_loop", "cfg", "add_successor", "call_indirect", "load_function", "general_sum_with_empty_rows",
                             "insert_detached:dfg", "insert_detached:cfg", "insert_detached:conditional", "insert_detached:tailloop",
-                            "tracked_index_command", "quiescent_point_validated", "discharge_conditional"],
+                            "tracked_index_command", "quiescent_point_validated", "discharge_conditional", "large_program", "op_added_after_outputs_set_nonlocal_input", "op_with_9_ports_or_more", "equal_but_not_identical_handles"],
         "technique": "seeded interleaving of open builder actors on one shared Hugr (type-directed well-formed programs), output checked by a reference validator written from validate.rs",
         "level_text": "C01 quantifies over builder programs including the interleaving of calls on several open builders, which is where the builders' port bookkeeping and order-edge insertion depend on history. The check samples that space with a seeded scheduler over builder actors and judges each product with an independent implementation of the validity rules the statement lists (parent/child pairs, I/O positions and rows, port counts, edge kinds and types, acyclicity, order edges for Ext edges, dominance, no value edge into a function, constants inhabiting their type).", "level_note": "Trusted: oracles/refsem.py + refvalidate.py (written from hugr-core validate.rs / ops/validate.rs; clauses named in DESIGN Appendix B). Not checked: extension-delta inference, TypeArg-vs-TypeParam checks, Call instantiation == substitution, opaque-op resolution (extension ops are taken at their written signature). Also checked although the Rust validator does not: one edge per incoming value / static port (specification/hugr.md). Program-space bounds: Dom wires only in a block's own calls (a nested builder refuses them by design); generated types are drawn from Bool / Qubit / int<w> / float64 / string / unit sums / tuples / options / eithers / general sums (incl. all-empty-row forms) / function types / type and row variables / array / list.",
     },
@@ -60,7 +61,7 @@ PROPS = {
         "real": ["hugr.hugr.base.Hugr graph store, hugr.utils.BiMap, node/port handles"], "stub": [],
         "expected_probes": ["freed_index_reused", "fanout_middle_deleted", "parallel_link_deleted", "deleted_node_had_order_links",
                             "deleted_node_had_multilinked_port", "insert_hugr", "insert_source_with_holes", "order_link_repeat",
-                            "absent_link_delete", "fan_in", "fan_out"],
+                            "absent_link_delete", "fan_in", "fan_out", "large_store", "port_with_9_links_or_more", "port_offset_8_or_more"],
         "technique": "seeded interleaving of client actors on one shared graph, checked call by call against a sequential reference model (refinement), with choice-trace minimisation and fresh-interpreter replay",
         "level_text": "The canonical reference-model idiom: every mutation history is replayed on a plain port multigraph and every query (iteration, count, lookup of live and dead handles, parent, ordered children, links(), linked_ports from both ends and all offsets incl. the order port, per-port listings, order-link listings, has_link, port counts as lower bounds) is compared after every call. Histories with collisions (small offset range, locality, index reuse) are sampled; exploration is the level a sampled history space supports.",
         "level_note": "Trusted: oracles/refgraph.py. Calls are atomic (no yield point inside the library), so an interleaving is a total order of calls. num_incoming/num_outgoing are not compared (the statement does not list them). Insertion order inside linked_ports is not asserted. Only leaves are deleted.",
@@ -98,7 +99,7 @@ PROPS = {
         "real": ["hugr.envelope, hugr.package, pyzstd, extension/package serialisation models", "reader node = second interpreter"],
         "stub": ["the disk: bytes between to_bytes and from_bytes are held and corrupted by the simulator (SimDisk role)",
                  "MODULE / MODULE_WITH_EXTS payload encoding needs the absent native module: not encodable offline; only their to_str rejection and header-level rejection on read are exercised"],
-        "expected_probes": ["restart_read", "text_envelope", "non_ascii_in_text_envelope"],
+        "expected_probes": ["restart_read", "text_envelope", "non_ascii_in_text_envelope", "package_of_many_modules"],
         "technique": "write / corrupt / restart / read: seeded packages and configurations for the round trip; the header fault space (format x flags, truncations, magic bit flips) enumerated completely in the thorough tier in front of valid payloads",
         "level_text": "The statement itself enumerates the fault space (all 2^16 format/flag pairs, all truncations below a header, wrong magic), so the fault leg is an enumeration, complete in the thorough tier (exhaustive: true is set from the measured pair count); the round-trip leg is seeded over packages and configurations and crosses a real process boundary in a quarter of the runs.",
         "level_note": "Trusted: docs_of (module/extension documents as JSON values) as the equality of packages; header constants from the statement. For format byte 63 any flags value must decode (compressed iff bit 0): the statement constrains the written flags, not the accepted ones. Payload-level corruption has no stated oracle and is reported as probes.",
@@ -119,7 +120,7 @@ PROPS = {
         "real": ["hugr.ext, hugr._serialization.extension, hugr.std loaders via pkgutil.get_data, set iteration order under the interpreter's hash seed",
                  "the reader node is a real second interpreter with a different PYTHONHASHSEED"],
         "stub": ["storage between writer and reader is a pipe owned by the simulator"],
-        "expected_probes": ["ext_with_two_or_more_reqs", "signature_with_two_or_more_reqs", "restart_read", "opdef_added_to_second_extension"],
+        "expected_probes": ["ext_with_two_or_more_reqs", "signature_with_two_or_more_reqs", "restart_read", "opdef_added_to_second_extension", "misc_nested_6_levels_or_more"],
         "technique": "seeded registry-building histories, write / restart / read with the reader under a different hash seed (requirement sets are emitted in set-iteration order: the one real nondeterminism in the code base), field-wise and document-fixpoint oracle; static std-lib comparison at boot",
         "level_text": "The round-trip half is simulated: histories build the extensions, and the second party reads the document in a different interpreter whose hash seed differs, which is exactly where requirement sets serialised in set-iteration order diverge. The std-lib half is a static comparison that rides on the simulation's boot and is labelled as such.",
         "level_note": "Trusted: the comparison summary (reader_main.ext_summary), oracles/refsem.cpoly for signatures (requirement sets as sets), the published Extension schema. Lowering functions are excluded (as in the statement).",
@@ -138,7 +139,7 @@ PROPS = {
         "real": ["Hugr.resolve_extensions, ops.Custom.resolve, tys.*.resolve, ExtensionRegistry, to_json / to_model of resolved objects"],
         "stub": ["the store holding the document is a string owned by the simulator"],
         "expected_probes": ["op_resolved", "type_resolved:top-level", "type_resolved:inside-sum", "type_resolved:inside-function-type",
-                            "type_resolved:type-argument", "type_resolved:argument-of-opaque-type", "unregistered_extension_op"],
+                            "type_resolved:type-argument", "type_resolved:argument-of-opaque-type", "unregistered_extension_op", "polymorphic_function_type_resolved", "extension_registered_before_its_definitions", "opaque_type_under_many_sums"],
         "technique": "sessions of resolve steps on loaded HUGRs / type expressions under fault injection at the request level: duplicate delivery of the same resolve, partial registries that are later completed; invariants checked after every step",
         "level_text": "The statement's quantifier includes the registry's state of knowledge (empty, partial, complete) and 'resolving twice equals resolving once'; the check turns these into a session history: knowledge arrives in steps, steps are delivered more than once, and after every delivery the HUGR (or type) is compared with the stored document, the exported model and its signatures, with resolvedness checked at every depth.",
         "level_note": "Trusted: the resolvedness walker in props/c11.py and the registry table. For HUGR-level steps only opaque operations are in scope (with the types in their signature and arguments), as the statement says; opaque types inside already-resolved or core operations are in scope only in the type-level leg.",
@@ -155,7 +156,7 @@ PROPS = {
                 "of the model classes vs python.rs is checked once per batch (static); non-trivial = >= 3 builder calls",
         "real": ["hugr.model.export.ModelExport, hugr.model dataclasses, tys/val to_model"], 
         "stub": ["hugr._hugr native printer/parser (absent offline): model objects are never str()/bytes()-ed", "Rust import.rs (the reader of the model) -> oracles/modelcheck.py"],
-        "expected_probes": ["order_edge_between_siblings", "function_called_twice", "const_loaded_again", "cfg", "conditional", "poly_call"],
+        "expected_probes": ["order_edge_between_siblings", "function_called_twice", "const_loaded_again", "cfg", "conditional", "poly_call", "definition_shared_by_two_extensions", "function_name_not_an_identifier", "module_level_node_annotated", "state_order_into_output_node"],
         "technique": "model export of seeded interleaved-builder products (the exporter reads history-dependent port counters), structural oracle over the exported dataclasses",
         "level_text": "The exporter takes port lists from counters whose value depends on the order in which builders linked ports, so the same abstract HUGR reached by two schedules can export differently; the check therefore exports engine-B products (scheduler-chosen interleavings) and compares the exported module with the HUGR clause by clause.",
         "level_note": "Trusted: oracles/modelcheck.py, refsem value-port counts. Only HUGRs the C01 oracle accepts are exported (others are discards so that one defect is not reported twice). The attribute-table clause is a static comparison riding on the simulation's boot.",
@@ -186,7 +187,7 @@ PROPS = {
                 "plain Dfg whose integer arguments are resolved by an index model; compared after every step (tracked list, "
                 "nodes, links) and after close (outputs, JSON); non-trivial = >= 3 steps; distinct = distinct event-log digests",
         "real": ["hugr.build.tracked_dfg.TrackedDfg, hugr.build.dfg.Dfg, graph store"], "stub": [],
-        "expected_probes": ["rebind", "untrack", "untracked_index_used", "index_used_twice_in_step"],
+        "expected_probes": ["rebind", "untrack", "untracked_index_used", "index_used_twice_in_step", "large_circuit", "command_object_added_again", "annotated_after_the_fact"],
         "technique": "lock-step refinement of two builders under one seeded step sequence, with an index model translating integer arguments; faulty requests (untracked indices) are injected and must raise IndexError without changing anything; the run then continues",
         "level_text": "The statement is an equivalence between two ways of driving a builder over all step sequences; the check runs both in lock-step under one seeded history and compares the tracked-wire list with an index model after every step and the two HUGRs node for node and link for link. Untracked indices are injected as faulty requests, must raise IndexError, and must leave both the tracked list and the HUGR untouched.",
         "level_note": "Trusted: the index model in props/c15.py. Integer arguments are placed only at positions below the operation's output count; negative indices are not generated (Python list semantics vs 'untracked' is ambiguous). A refused command (untracked index) changes nothing on the tree as it stands, so after the IndexError the run continues (fault, then workload): the earlier commands of the same extend() are applied to the plain builder and both builders must still agree.",
@@ -204,7 +205,7 @@ PROPS = {
         "real": ["hugr.hugr.node_port (Node, ports, index normalisation), handle re-issue in the graph store, builders"], "stub": [],
         "expected_probes": ["handle:add_op", "handle:call", "handle:load", "handle:nested-dfg-closed", "handle:conditional-closed",
                             "handle:tail-loop-closed", "handle:cfg-closed", "graph_handle_known", "graph_handle_unknown",
-                            "handle:insert_dfg", "handle:insert_cfg", "handle:insert_conditional", "handle:insert_tailloop"],
+                            "handle:insert_dfg", "handle:insert_cfg", "handle:insert_conditional", "handle:insert_tailloop", "container_closed_after_32_or_more_later_siblings", "handle_with_many_outputs", "conditional_node_read_before_outputs_set"],
         "technique": "handles harvested from seeded builder/graph histories (the count is a temporal fact: unknown until outputs are set), each probed against range(n) semantics; choice-trace minimisation",
         "level_text": "The index algebra alone would be a pure function; what makes the property a history property is that the count a handle knows is fixed when the handle is issued and the library re-issues handles as builders learn their outputs. The check therefore harvests every handle real histories produce (with the count the reference semantics gives) and probes each against Python's range(n) indexing/slicing rules as the statement words them.",
         "level_note": "Trusted: range(n) as the indexing reference; the generator's knowledge of each operation's output arity. load_function is not in the statement's list and its handle is not probed.",
@@ -219,7 +220,7 @@ PROPS = {
                 "a register file, then the multi-shot queries under all four strictness flag pairs and the collation "
                 "queries; non-trivial = >= 2 appends; distinct = distinct event-log digests",
         "real": ["hugr.qsystem.result.QsysShot / QsysResult"], "stub": ["pytket conversion (not installed; not exercised)"],
-        "expected_probes": ["whole_after_indexed", "bool_bit", "strict_reject", "names_differ", "lengths_differ"],
+        "expected_probes": ["whole_after_indexed", "bool_bit", "strict_reject", "names_differ", "lengths_differ", "large_result", "one_list_object_in_several_entries"],
         "technique": "seeded write-log histories replayed into a reference register file (log-replay oracle) after every append; choice-trace minimisation; fresh-interpreter replay",
         "level_text": "A shot is an ordered log of writes and the statement defines the result as replaying that log; the check generates logs step by step and compares the real conversion with a reference register file after every append, then the multi-shot aggregations under every strictness flag pair. There are no faults, clocks or interleavings here (single actor) - what is simulated is ordering inside a history, the weakest fit of the technique among the claimed properties, stated as such in DESIGN.md.",
         "level_note": "Trusted: the reference replay in props/c19.py and the documented tag pattern. A non-bit value that a later entry with the same tag supersedes is ambiguous under the statement; both outcomes are accepted there (counted by a probe).",
@@ -236,7 +237,7 @@ PROPS = {
                 "independent of the configuration; non-trivial = >= 3 builder calls",
         "real": ["hugr.hugr.render.DotRenderer, graphviz.Digraph source generation"],
         "stub": ["the dot layout binary is not run in the quick tier (DOT source only)"],
-        "expected_probes": ["order_edges_rendered", "cfg", "conditional", "call", "const_in_outer_scope"],
+        "expected_probes": ["order_edges_rendered", "cfg", "conditional", "call", "const_in_outer_scope", "long_lived_renderer_after_failed_preview", "op_with_9_ports_or_more"],
         "technique": "rendering of seeded interleaved-builder products (the renderer sizes port rows from history-dependent counters), DOT source parsed and compared structurally with the HUGR",
         "level_text": "As for C12, the renderer reads the graph store's connected-port counters, whose values depend on the order in which builders linked ports; the check renders engine-B products under scheduler-chosen interleavings and compares a parse of the DOT source with the HUGR's public observation.",
         "level_note": "Trusted: oracles/dot.py (parser for the subset of DOT graphviz emits). Cells: the statement says one cell per port while num_ports documents itself as a lower bound; any k between highest linked offset + 1 and the signature's count is accepted. Order edges are endpoints with offset -1; no cell is demanded for them.",
